@@ -353,7 +353,7 @@ SUBS = [
     Sub("hedger_sweep", check_hedger,
         rule="BlackScholes / WhalleyWilmott(a in {0.1,1,10}) hedger x 4 option types x 6 stock models with default and stressed parameters x "
              "strikes ITM/ATM/OTM x costs {0,1e-4,1e-2} x 8..200 paths x 2..30 steps. Non-trivial: some path ends within 1% of the strike.",
-        strategy=lambda tier: hedger_case(), examples={"quick": 800, "thorough": 8000}),
+        strategy=lambda tier: hedger_case(), examples={"quick": 1600, "thorough": 16000}),
     Sub("k3_demo", check_k3_hedger_demo, rule="fixed demonstration input for known finding K3 (only run through its committed replay)",
         enumerate=lambda tier: [], exhaustive=False),
 ]
